@@ -727,7 +727,22 @@ func bufferWriteArg(p *Prog, in *ssa.Function, cl *ssa.Call) ssa.Value {
 			}
 		}
 	}
-	if bi < 0 || di < 0 || di >= len(cl.Call.Args) {
+	// a closure of the function that writes into the buffer it captured: mustWrite := func(p []byte) { buf.Write(p) … }
+	var captured ssa.Value
+	if bi < 0 && g.Parent() == in {
+		for _, fv := range g.FreeVars {
+			t := fv.Type()
+			for k := 0; k < 2; k++ {
+				if pt, ok := t.Underlying().(*types.Pointer); ok {
+					if n, ok := pt.Elem().(*types.Named); ok && n.Obj().Pkg() != nil && n.Obj().Pkg().Path() == "bytes" && n.Obj().Name() == "Buffer" {
+						captured = fv
+					}
+					t = pt.Elem()
+				}
+			}
+		}
+	}
+	if (bi < 0 && captured == nil) || di < 0 || di >= len(cl.Call.Args) {
 		return nil
 	}
 	md := NewMustDo(p, func(i ssa.Instruction) bool {
@@ -736,7 +751,17 @@ func bufferWriteArg(p *Prog, in *ssa.Function, cl *ssa.Call) ssa.Value {
 			return false
 		}
 		o2 := p.CalleeObj(c2)
-		return o2 != nil && funcIs(o2, "bytes", "Buffer", "Write") && c2.Call.Args[0] == ssa.Value(g.Params[bi]) && c2.Call.Args[1] == ssa.Value(g.Params[di])
+		if o2 == nil || !funcIs(o2, "bytes", "Buffer", "Write") || c2.Call.Args[1] != ssa.Value(g.Params[di]) {
+			return false
+		}
+		if bi >= 0 {
+			return c2.Call.Args[0] == ssa.Value(g.Params[bi])
+		}
+		dst := c2.Call.Args[0]
+		if u, ok := dst.(*ssa.UnOp); ok && u.Op == token.MUL {
+			dst = u.X
+		}
+		return dst == captured
 	})
 	if md.Func(g) {
 		return cl.Call.Args[di]
